@@ -76,6 +76,28 @@ Theorem binlog_unsigned_refuted_before_fix :
 Proof. exact CodecProofs.binlog_unsigned_refuted_before_fix. Qed.
 Print Assumptions binlog_unsigned_refuted_before_fix.
 
+(** The classes excluded by [col_matches] / [fval_ok] are genuine counterexamples, not conveniences:
+    MEDIUMINT UNSIGNED through the binlog decoder (8388608 comes back as 4286578688), ... *)
+Theorem mediumint_unsigned_binlog_refuted :
+  exists e d x s,
+    env_laws e /\ desc_ok d = true /\ fval_ok e d x = true /\
+    repr e (ColInt 24 true) PBinlog (valuer d (dyn_of d x)) = Some s /\
+    x = FVal (GInt 8388608) /\ scanner e d s = Ok (FVal (GInt 4286578688)).
+Proof. exact CodecProofs.mediumint_unsigned_binlog_refuted. Qed.
+Print Assumptions mediumint_unsigned_binlog_refuted.
+
+(** ... a non-nil *[]byte pointing at a nil slice (comes back pointing at an empty one) and a non-nil
+    *sql.NullString that is not Valid (comes back as a nil pointer). *)
+Theorem pointer_to_nil_payload_refuted :
+  exists e d1 d2 s1 s2,
+    env_laws e /\ desc_ok d1 = true /\ desc_ok d2 = true /\
+    repr e ColBlob PProto (valuer d1 (dyn_of d1 (FVal (GBytes None)))) = Some s1 /\
+    scanner e d1 s1 = Ok (FVal (GBytes (Some ""%string))) /\
+    repr e ColBlob PProto (valuer d2 (dyn_of d2 (FVal (GBytes None)))) = Some s2 /\
+    scanner e d2 s2 = Ok FNil.
+Proof. exact CodecProofs.pointer_to_nil_payload_refuted. Qed.
+Print Assumptions pointer_to_nil_payload_refuted.
+
 (** Non-vacuity: the laws are satisfiable, and a row with a negative int8 from the binlog, a NULL
     pointer, an implicit NULL, a json-tagged integer read as text and a uint64 on an INT UNSIGNED
     column meets [row_repr]. *)
